@@ -233,6 +233,13 @@ class Writer:
         @param data: [in]: a list of words
         @return: the data start index
         """
+        word_limit = 1 << self.word_size
+        for word in data:
+            if word < 0 or word >= word_limit:
+                raise FlipJumpWriteFjmException(
+                    f"data word {hex(word)} does not fit in the {self.word_size}-bits memory-width."
+                )
+
         data_start = len(self.data)
         self.data += data
         return data_start
